@@ -35,10 +35,10 @@ MSG, INT, PYINT, FIELD, BYTES, OTHER = "message-sequence", "x690-Integer", "pyth
 
 def run(ctx: Ctx, rep: Report) -> None:
     rep.rule("C19-R1", "every access on the decoded datagram is valid for the SNMP message schema; the MPM is selected by the version field", floor=2)
-    rep.rule("C19-R2", "the trap's source is the datagram's origin on every path to the callback; the datagram's bytes are what is decoded", floor=3)
-    rep.rule("C19-R3", "the callback is scheduled exactly once, after a successful decode, with the decoded trap", floor=2)
-    rep.rule("C19-R4", "the receiver protocol forwards every datagram with its origin and never closes the transport", floor=4)
-    rep.rule("C19-R6", "the trap's bindings are read from the datagram in the order and at the positions the encoders and the RFCs use (shared with C06-R3)", floor=8)
+    rep.rule("C19-R2", "the trap's source is the datagram's origin on every path to the callback; the datagram's bytes are what is decoded", floor=2)
+    rep.rule("C19-R3", "the callback is scheduled exactly once, after a successful decode, with the decoded trap", floor=1)
+    rep.rule("C19-R4", "the receiver protocol forwards every datagram with its origin and never closes the transport", floor=3)
+    rep.rule("C19-R6", "the trap's bindings are read from the datagram in the order and at the positions the encoders and the RFCs use (shared with C06-R3)", floor=5)
     rep.rule("C19-R5", "community check through the community MPM; pythonic trap view reads the right bindings", floor=5)
     rep.assumptions += [
         "UDP delivery and asyncio's handling of an exception raised inside datagram_received (logged, listener keeps running) are not analysed",
